@@ -232,6 +232,15 @@ def _summarise(calls):
             "first_size": sizes[0] if sizes else None}
 
 
+def stage(state, name, program, stage_dict):
+    """keeps the IPC small: only the 'gen' export travels to the parent; translations are replaced by
+    their lengths (the check needs only that they completed)"""
+    if name != "gen":
+        stage_dict.pop("export", None)
+    if "texts" in stage_dict:
+        stage_dict["texts"] = {k: len(v) for k, v in stage_dict["texts"].items()}
+
+
 def collect(state):
     st = state.get("depth", {})
     return {k: v for k, v in st.items() if k not in ("orig", "orig_erasure")}
